@@ -12,9 +12,12 @@
     handle's content (handle names are `handle:` + 20 random alphanumerics, so a document
     cannot contain one unless it was built from a handle on purpose).
 
-  Not covered by a theorem: the JSON text layer (`serde_json`), the properties format
-  (`java-properties` crate) — see obligations `partial`.
+  * properties: `map_to_properties` then `map_load_properties` — theorems `C17_props_…` in
+    `Props/C17Props.lean` (model `Sdk/Properties.lean` of the `java-properties` writer/reader).
+
+  Not covered by a theorem: the JSON text layer (`serde_json`) — see obligations `partial`.
 -/
+import DuckModel.Props.C17Props
 import DuckModel.Sdk.Encode
 import DuckModel.Sdk.Utf8Decode
 import DuckModel.Lemmas.EncodeLemmas
